@@ -12,6 +12,7 @@ import (
 	"github.com/cloudwego/dynamicgo/meta"
 	"github.com/cloudwego/dynamicgo/proto"
 	"github.com/cloudwego/dynamicgo/proto/binary"
+	"github.com/cloudwego/dynamicgo/proto/protowire"
 )
 
 // memory resize factor
@@ -172,11 +173,23 @@ func (self *visitorUserNode) OnNull() error {
 		self.inskip = false
 		return nil
 	}
-	// self.stk[self.sp].val = &visitorUserNull{}
-	if err := self.incrSP(); err != nil {
-		return err
+	if self.globalFieldDesc != nil {
+		// a null member means "not set": nothing is written for it
+		top := &self.stk[self.sp]
+		if top.typ == mapStkType && top.state.lenPos != -1 {
+			// null map value: take back the entry (pair tag, length, key) that has been started for this key
+			fd := top.state.fieldDesc
+			tagLen := protowire.SizeVarint(uint64(fd.Number())<<3 | uint64(proto.BytesType))
+			self.p.Buf = self.p.Buf[:top.state.lenPos-tagLen]
+			self.pop()
+		}
+		self.globalFieldDesc = nil
+		return nil
 	}
-	return self.onValueEnd()
+	if self.stk[self.sp].typ == arrStkType {
+		return newError(meta.ErrDismatchType, "null can't be an element of a repeated field", nil)
+	}
+	return nil
 }
 
 func (self *visitorUserNode) OnBool(v bool) error {
